@@ -145,7 +145,7 @@ def _case(draw, ctx):
                 nets += [f"{name}_{x[0]}" for x in ch["nodes"]]
     strip = None
     if draw(st.booleans()):
-        strip = {"ignore": draw(st.sampled_from([None, None, "clk", ["d"], ["q", "en"], "A", ["Y", "clk"], "d", "q", ["clk", "d"], "sd", "nq", "gclk", "qn", ["nq"], ["sd", "gclk"]]))}
+        strip = {"mark": draw(st.integers(0, 9)), "ignore": draw(st.sampled_from([None, None, "clk", ["d"], ["q", "en"], "A", ["Y", "clk"], "d", "q", ["clk", "d"], "sd", "nq", "gclk", "qn", ["nq"], ["sd", "gclk"]]))}
     tables = draw(st.lists(st.integers(0, (1 << 64) - 1), min_size=24, max_size=24))
     return {"parent": parent, "children": children, "steps": steps, "strip": strip, "tables": tables}
 
@@ -328,6 +328,13 @@ def check(case, ctx):
     if case.get("strip") is not None and P.blackboxes:
         ign = case["strip"]["ignore"]
         ign_l = [] if ign is None else ([ign] if isinstance(ign, str) else list(ign))
+        mk = case["strip"].get("mark", 9)
+        pins_in = sorted(n for n in P.graph.nodes if P.graph.nodes[n]["type"] == "bb_input")
+        if mk < 3 and pins_in:
+            # the user has marked a blackbox input pin as an output of the design (observing what the cell receives);
+            # exposing the pins turns every input pin into an output anyway, so the expected result is the same
+            need(lib(P.set_output, pins_in[mk % len(pins_in)]), "set_output", "set_output(<bb_input pin>)")
+            labels.add("pin_marked_output")
         snap = refsim.snapshot(P)
         out = lib(cg.tx.strip_blackboxes, P, ign) if ign is not None else lib(cg.tx.strip_blackboxes, P)
         clash = sorted(n.replace(".", "_") for n in P.graph.nodes
